@@ -160,23 +160,7 @@ impl Property for C19 {
         out.class_if(f.depth >= 1 && f.rows > 0, "row-in-loop");
 
         let tc = if via_dig {
-            use crate::digdoc::*;
-            let mut elements: Vec<Element> = built
-                .sigs
-                .iter()
-                .map(|s| {
-                    let (kind, default) = match s.kind {
-                        Kind::Out => (PinKind::Out, None),
-                        Kind::In(InVal::Val(v)) | Kind::Bidir(InVal::Val(v)) => (PinKind::In, Some((Some(v), Some(false)))),
-                        Kind::In(InVal::Z) | Kind::Bidir(InVal::Z) => (PinKind::In, Some((Some(0), Some(true)))),
-                    };
-                    Element::Pin(Pin { kind, label: Some(s.name.clone()), bits: Some(s.bits), default })
-                })
-                .collect();
-            elements.push(Element::Test(DigTest { label: Some("t".into()), source: r.text.clone() }));
-            let xml = DigDoc { elements }.render(&mut Ch::new(&[]));
-            let loaded = guarded(|| digital_test_runner::dig::File::parse(&xml).ok().and_then(|f| f.load_test(0).ok()));
-            match loaded {
+            match load_via_dig(&r.text, &built.sigs) {
                 Ok(Some(tc)) => {
                     out.class("loaded-from-a-dig-document");
                     tc
